@@ -24,6 +24,10 @@ func Check(tree *parser.Tree, config *conf.Config) (reflect.Type, error) {
 
 	t := v.visit(tree.Node)
 
+	if v.err != nil {
+		return t, v.err.Bind(tree.Source)
+	}
+
 	if v.expect != reflect.Invalid {
 		switch v.expect {
 		case reflect.Int64, reflect.Float64:
@@ -35,10 +39,6 @@ func Check(tree *parser.Tree, config *conf.Config) (reflect.Type, error) {
 				return nil, fmt.Errorf("expected %v, but got %v", v.expect, t)
 			}
 		}
-	}
-
-	if v.err != nil {
-		return t, v.err.Bind(tree.Source)
 	}
 
 	return t, nil
